@@ -254,6 +254,16 @@ def r2(ctx):
     ok = bool(assigns) and all(g.dominates(assigns, s) for s in last_sets if g.path(s, [g.exit], kinds=NORMAL) and not _leads_to_raise_only(g, s))
     ctx.ob("R2", "FutureConnector.deploy: `_connector` is published before the event is set on success", ok,
            func=f, node=f.node, instance="future.deploy:publish-order")
+    # ... and only once the inner connector is deployed: the delegating methods treat `_connector is not None` as "deployed"
+    inner = [n.id for n in g.nodes.values() if n.has_await() and any(isinstance(c.func, ast.Attribute) and c.func.attr == "deploy" for c in n.calls())]
+    ctx.ob("R2", "FutureConnector.deploy awaits the inner connector's deploy()", bool(inner), func=f, node=f.node, instance="future.deploy:inner-deploy")
+    for a in assigns:
+        ctx.ob("R2", "FutureConnector.deploy: `_connector` is published only after the inner deploy() completed",
+               bool(inner) and g.dominates(inner, a), func=f, node=g.nodes[a].ast, instance="future.deploy:publish-after-deploy",
+               message="`self._connector` is set before the inner connector's deploy() has completed: concurrent requests see "
+                       "`_connector is not None`, skip the deploy_event wait and are served by a connector that is not deployed "
+                       "(and succeed even if the deployment then fails)",
+               witness=g.describe(g.path(g.entry, [a], avoid=inner) or []))
 
 
 def _leads_to_raise_only(g, s) -> bool:
@@ -435,6 +445,10 @@ VARIANTS = [
       "try:\n        connector = self.type(deployment_name=self.deployment_name, config_dir=self.config_dir, transferBufferSize=self.transferBufferSize, **self.parameters)",
       "connector = self.type(deployment_name=self.deployment_name, config_dir=self.config_dir, transferBufferSize=self.transferBufferSize, **self.parameters)\n    try:", "R2"),
     V("waiter does not re-check", MFILE, f"{MGR}._deploy", "if deployment_name not in self.deployments_map:", "if False:", "R3"),
+    V("future.deploy: connector published before its deploy() completed", FFILE, f"{FUT}.deploy",
+      "        await connector.deploy(external)", "        self._connector = connector\n        await connector.deploy(external)", "R2"),
+    V("future.deploy: publish through a temporary (benign)", FFILE, f"{FUT}.deploy",
+      "    self._connector = connector\n    self.deploy_event.set()", "    deployed = connector\n    self._connector = deployed\n    self.deploy_event.set()", None),
     V("deploying flag after await", FFILE, f"{FUT}.run", "self.deploying = True\n            await self.deploy(self.external)",
       "await self.deploy(self.external)\n            self.deploying = True", "R1"),
     V("one delegating method without idiom", FFILE, f"{FUT}.get_shell",
